@@ -2,7 +2,7 @@
 C09 (SVG and TikZ draw the same picture), C11 (export succeeds on every documented input)."""
 import json, sys, unicodedata
 from fractions import Fraction
-from common import Report, build_and_audit, drive, fields, rng_for, leanchecker, REPO, fr
+from common import Report, build_and_audit, drive, fields, rng_for, leanchecker, REPO, fr, time_limit
 import timeline_gen as TG
 from parse_export import parse_svg, parse_tikz
 
@@ -59,8 +59,9 @@ def lines_for(spec, rep, want=("geom", "pic", "scale", "layout", "size")):
     for backend in ("svg", "tikz"):
         I._state["layers"] = []
         try:
-            tl = TG.construct(spec, backend)
-            docs[backend] = TG.export(tl)
+            with time_limit(120):
+                tl = TG.construct(spec, backend)
+                docs[backend] = TG.export(tl)
             tls[backend] = tl
             captured[backend] = I._state["layers"]
         except RecursionError:
@@ -246,8 +247,9 @@ def body_c11(tier, seed, rep, only_prop=False, scale=1):
         degenerate = len({json.dumps(d["time"]) for d in spec["data"]}) == 1 and "domain" not in spec["options"]
         for backend in ("svg", "tikz"):
             try:
-                tl = TG.construct(spec, backend)
-                doc = TG.export(tl)
+                with time_limit(120):
+                    tl = TG.construct(spec, backend)
+                    doc = TG.export(tl)
                 if degenerate and spec["kind"] != "time":
                     g = parse_svg(doc) if backend == "svg" else parse_tikz(doc)
                     dots, _ = along(tl, g["dots"])
